@@ -592,3 +592,21 @@ func padBoundRule(c *core.Check, r *core.Rule) {
 		r.Anchor("renderValue: strings.Repeat of the pad symbol")
 	}
 }
+
+// sideTupleRule: a two-element assignment between side-named values is not crossed (left, right = …Right, …Left).
+func sideTupleRule(c *core.Check, r *core.Rule, pkg string, floor int) {
+	p := c.Prog
+	as := p.SideAssigns(pkg, nil)
+	seen := map[string]int{}
+	for _, a := range as {
+		key := pkg + "." + a.Func + " | " + a.Text
+		seen[key]++
+		if seen[key] > 1 {
+			key = fmt.Sprintf("%s #%d", key, seen[key])
+		}
+		r.Cond(a.Consistent, key, p.Pos(a.Pos), "each value goes to the variable of its own side", "the two values are assigned crosswise: the left one to the right side and the right one to the left side")
+	}
+	if len(as) < floor*2/3 {
+		r.Unknown("side-named tuple assignments in "+pkg, "-", fmt.Sprintf("%d found, %d on the tree this rule was written for", len(as), floor))
+	}
+}
